@@ -136,12 +136,17 @@ def run_case(case, part):
         if p.kind == 'redirect':
             redirect_src.setdefault(p.location[1], []).append(p.url)
     requested = set()
+    addr_host = {addrs[0]: 'a.test', addrs[1]: 'b.test'}
     for e in log:
-        host = e['host'].lower().replace(':80', '')
+        # identity of the contacted origin = the address the request arrived on (a Host field that names another
+        # host is C16's subject and only counted here)
+        host = addr_host[e['addr']]
+        if e['host'].lower().replace(':80', '') != host:
+            part.count('crawl_requests_with_host_field_of_other_origin')
         url = 'http://' + host + e['target']
         requested.add(url)
     for e in log:
-        host = e['host'].lower().replace(':80', '')
+        host = addr_host[e['addr']]
         url = 'http://' + host + e['target']
         part.count('crawl_requests_checked')
         if e['target'] == '/robots.txt':
